@@ -597,18 +597,23 @@ def catalogue():
         out.append(chd.getdate(o["day"], d2.copy()))
         return out
     add("c_hydrodiy_data date helpers", [], dates,
-        lambda cs: {"d": [cs.choice("y", [2000, 1900, 0, -400, 9999, 100000]),
+        lambda cs: {"d": [cs.choice("y", [2000, 1900, 0, -400, 9999, 100000,
+                                          2 ** 31 - 1, -2 ** 31, 214748]),
                           cs.choice("m", [1, 2, 12, 0, 13, -1, 99]),
                           cs.choice("dd", [1, 28, 29, 31, 0, 32, -1])],
                     "d2": [cs.choice("y2", [2000, 2001]),
                            cs.choice("m2", [1, 12]), cs.choice("d2", [1, 31])],
                     "day": cs.choice("day", [20010315.0, 0.0, -1.0,
-                                             20011340.0, 99999999.0])},
+                                             20011340.0, 99999999.0,
+                                             23622320101.0, 1e300, -1e300,
+                                             float("nan"), float("inf")])},
         weight=4)
     add("c_hydrodiy_data.combi", [],
         lambda a, o: chd.combi(o["n"], o["k"]),
-        lambda cs: {"n": cs.choice("n", [5, 0, 1, 30, 60, -1]),
-                    "k": cs.choice("k", [2, 0, 1, 15, 30, 61, -1])}, weight=2)
+        lambda cs: {"n": cs.choice("n", [5, 0, 1, 30, 60, -1, 2 ** 31 - 1,
+                                         -2 ** 31]),
+                    "k": cs.choice("k", [2, 0, 1, 15, 30, 61, -1, 2 ** 31 - 1,
+                                         -2 ** 31])}, weight=2)
     return E
 
 
